@@ -1,5 +1,95 @@
-"""Positive / negative controls (fixture crate) — filled in per rule."""
+"""Controls for the thorough tier: the check must fire on the seeded changes of its property.
+
+The catalogue is /verif/mutants/<ID>-*.patch (written while building the rules) and /verif/seeded/<ID>-*/patch.diff (written by
+independent sub-agents who saw only the property text; each confirmed to compile, pass the 603 pinned tests and break the
+property).  For every patch that still applies to /repo's *current working tree*, the tree is copied to a scratch directory
+under $TMPDIR, patched, analysed by the same quick check, and removed again.  What is recorded: which rule instance
+reported it.  A patch that no longer applies (the code it touches has changed) is listed as such and not counted.
+
+The controls do not change the verdict on /repo (they say something about the checker); only a check that detects none of
+its applicable controls is treated as broken (exit 3).
+"""
+import concurrent.futures
+import glob
+import json
+import os
+import re
+import shutil
+import subprocess
+import tempfile
+
+from facts import BrokenCheck
+
+VERIF = os.path.dirname(os.path.dirname(os.path.dirname(os.path.abspath(__file__))))
 
 
-def run(prop, res, tier):
-    return
+def catalogue(prop):
+    out = []
+    for p in sorted(glob.glob(os.path.join(VERIF, "mutants", prop + "-*.patch"))):
+        out.append((os.path.basename(p)[:-6], p, "catalogue"))
+    for p in sorted(glob.glob(os.path.join(VERIF, "seeded", prop + "-*", "patch.diff"))):
+        meta = os.path.join(os.path.dirname(p), "meta.json")
+        ok = True
+        if os.path.exists(meta):
+            with open(meta) as f:
+                ok = json.load(f).get("confirmed", True)
+        if ok:
+            out.append((os.path.basename(os.path.dirname(p)), p, "independent"))
+    return out
+
+
+def _one(prop, name, patch, origin, repo):
+    base = tempfile.mkdtemp(prefix="xmlrs-ctl-")
+    wt = os.path.join(base, "repo")
+    try:
+        r = subprocess.run(["rsync", "-a", "--exclude", "/target", "--exclude", "/.git", repo.rstrip("/") + "/", wt + "/"],
+                           capture_output=True, text=True)
+        if r.returncode != 0:
+            return {"control": name, "origin": origin, "status": "copy-failed", "detail": r.stderr[-200:]}
+        a = subprocess.run(["git", "apply", "--unsafe-paths", "--directory", wt, patch], capture_output=True, text=True, cwd="/")
+        if a.returncode != 0:
+            # git apply outside a work tree: fall back to patch(1)
+            a = subprocess.run(["patch", "-p1", "-s", "-f", "-d", wt, "-i", patch], capture_output=True, text=True)
+        if a.returncode != 0:
+            return {"control": name, "origin": origin, "status": "does-not-apply-to-current-tree"}
+        env = dict(os.environ)
+        env["VERIF_TIER"] = "quick"
+        p = subprocess.run([os.path.join(VERIF, "check"), prop, "--repo", wt, "--no-evidence", "--tier", "quick"],
+                           capture_output=True, text=True, cwd=VERIF, env=env)
+        keys = ["%s %s" % k for k in re.findall(r"^  (\S+) (.*?) at ", p.stdout, re.M)]
+        if p.returncode == 1:
+            st = "detected"
+        elif p.returncode == 0:
+            st = "missed"
+        else:
+            st = "not-analysable"
+            keys = re.findall(r"^BROKEN.*$", p.stdout, re.M)[:1]
+        return {"control": name, "origin": origin, "status": st, "reported_by": keys[:3]}
+    finally:
+        shutil.rmtree(base, ignore_errors=True)
+
+
+def run(prop, res, tier, repo="/repo"):
+    if tier != "thorough" or os.environ.get("VERIF_NO_CONTROLS"):
+        return
+    cat = catalogue(prop)
+    out = []
+    jobs = int(os.environ.get("VERIF_JOBS", "6"))
+    with concurrent.futures.ThreadPoolExecutor(max_workers=jobs) as ex:
+        futs = [ex.submit(_one, prop, n, p, o, repo) for n, p, o in cat]
+        for f in futs:
+            out.append(f.result())
+    applied = [r for r in out if r["status"] in ("detected", "missed", "not-analysable")]
+    det = [r for r in applied if r["status"] == "detected"]
+    res.extra["controls"] = {
+        "what": "seeded changes that break this property while compiling and passing the pinned tests; each applied to a scratch "
+                "copy of the current working tree and analysed by this check",
+        "catalogue": len(cat), "applied": len(applied), "detected": len(det),
+        "missed": [r["control"] for r in applied if r["status"] == "missed"],
+        "results": out,
+    }
+    print("controls %s: %d in catalogue, %d applicable to the current tree, %d detected%s"
+          % (prop, len(cat), len(applied), len(det),
+             "" if len(det) == len(applied) else "; missed: " + ", ".join(r["control"] for r in applied if r["status"] != "detected")))
+    if applied and not det:
+        raise BrokenCheck("%s detects none of its %d applicable controls" % (prop, len(applied)))
